@@ -41,6 +41,15 @@ class Poly:
         for k1, v1 in self.t.items():
             for k2, v2 in o.t.items():
                 k = tuple(sorted(k1 + k2))
+                # an indicator [c] takes the values 0 and 1: [c]*[c] = [c]
+                if any(a.startswith("[") for a in k):
+                    seen, kk = set(), []
+                    for a in k:
+                        if a.startswith("[") and a in seen:
+                            continue
+                        seen.add(a)
+                        kk.append(a)
+                    k = tuple(kk)
                 d[k] = d.get(k, 0) + v1 * v2
         return Poly(d)
 
